@@ -856,3 +856,200 @@ def _check_parser_validation(ctx, res: RuleResult):
         if not ok:
             res.fail(Finding("R-ORDERING", tg.module.rel, tg.qualname, norm(ex), "a graph can be returned without the bond endpoints / attribute indices having been checked against the atoms of the formula: "
                              "a string with a dangling index is accepted (or silently altered) instead of being rejected", line=ex.lineno))
+
+
+# --------------------------------------------------------------------------- R-INDEXSPACE / R-GRAPHBUILD
+
+
+def _index_offsets(fi: FuncInfo):
+    """[(node, token position k or None, offset c)] for expressions  int(<row>[k]) ± c  and  <name> ± c inside comprehensions over parsed numbers"""
+    out = []
+    for n in own_walk(fi.node):
+        if isinstance(n, ast.BinOp) and isinstance(n.op, (ast.Add, ast.Sub)) and isinstance(n.right, ast.Constant) and isinstance(n.right.value, int):
+            c = n.right.value if isinstance(n.op, ast.Add) else -n.right.value
+            l = n.left
+            if isinstance(l, ast.Call) and isinstance(l.func, ast.Name) and l.func.id == "int" and l.args and isinstance(l.args[0], ast.Subscript) \
+                    and isinstance(l.args[0].slice, ast.Constant):
+                out.append((n, l.args[0].slice.value, c))
+    return out
+
+
+@rule("R-INDEXSPACE")
+def r_indexspace(ctx) -> RuleResult:
+    res = RuleResult("R-INDEXSPACE", "V3000: atoms are keyed by the index column of their line, bonds refer to atoms through the same column with the same offset, atom records are stored in file order; V2000: atoms keyed by line position, in file order")
+    # ---- V3000
+    fi, I, rec, bonds = analyse_reader(ctx, "V3000")
+    out = I.call.__self__ if False else None
+    atoms_obj = None
+    # re-run to get the atom map object itself (analyse_reader caches only the record); cheap
+    from ..heap import HeapInterp, Obj, string
+    J = HeapInterp(ctx.repo)
+    lines = Obj("list")
+    lines.elem = string()
+    ret = J.call(fi, [lines])
+    amap, bmap = ret.items
+    akeys = {c[1:-1] for c in _labels(amap.keyt, "@idx")}
+    ok = akeys == {"2"}
+    res.inst(fi.fq, f"V3000 atom records keyed by token {sorted(akeys) or 'none (line position)'} of the atom line", "ok" if ok else "fail")
+    if not ok:
+        res.fail(Finding("R-INDEXSPACE", fi.module.rel, "_parse_atom_block", f"atom key provenance {sorted(akeys) or 'line position'}",
+                         "V3000 atoms are not keyed by the index column of their line while bonds refer to atoms by that index: files whose atom lines are not listed 1..n attach bonds to the wrong atoms",
+                         line=fi.node.lineno))
+    bkeys = {c[1:-1] for c in _labels(bmap.keyt, "@idx")}
+    ok = {"4", "5"} <= bkeys
+    res.inst(fi.fq, f"V3000 bond endpoints read from tokens {sorted(bkeys)}", "ok" if ok else "fail")
+    if not ok:
+        res.fail(Finding("R-INDEXSPACE", fi.module.rel, "_parse_bond_block", f"bond key provenance {sorted(bkeys)}", "V3000 bond endpoints are not read from tokens 4 and 5 of the bond line", line=fi.node.lineno))
+    clo = [ctx.cg.funcs[q] for q in ctx.cg.closure([fi.fq])]
+    offs = []
+    for f in clo:
+        for n, k, c in _index_offsets(f):
+            if k in (2, 4, 5):
+                offs.append((f, n, k, c))
+        # star-atom endpoints: (start, end - 1) in a comprehension
+        for n in own_walk(f.node):
+            if isinstance(n, (ast.ListComp, ast.GeneratorExp)) and isinstance(n.elt, ast.Tuple) and len(n.elt.elts) == 2:
+                e2 = n.elt.elts[1]
+                if isinstance(e2, ast.BinOp) and isinstance(e2.op, (ast.Add, ast.Sub)) and isinstance(e2.right, ast.Constant) and isinstance(e2.left, ast.Name) \
+                        and isinstance(n.generators[0].target, ast.Name) and e2.left.id == n.generators[0].target.id:
+                    offs.append((f, e2, "ENDPTS", e2.right.value if isinstance(e2.op, ast.Add) else -e2.right.value))
+                elif isinstance(e2, ast.Name) and isinstance(n.generators[0].target, ast.Name) and e2.id == n.generators[0].target.id and "endpt" in norm(n).lower():
+                    offs.append((f, e2, "ENDPTS", 0))
+    cs = {c for _, _, _, c in offs}
+    ok = len(cs) == 1 and len(offs) >= 3
+    res.inst(fi.fq, f"index fields {[(k, c) for _, _, k, c in offs]} carry one common offset", "ok" if ok else "fail")
+    if not ok and offs:
+        f, n, k, c = offs[0]
+        odd = [(f2, n2, k2, c2) for f2, n2, k2, c2 in offs if [x[3] for x in offs].count(c2) == 1] or offs
+        f, n, k, c = odd[0]
+        res.fail(Finding("R-INDEXSPACE", f.module.rel, f.qualname, norm(n), f"atom index fields are converted with different offsets {sorted(cs)}: bonds refer to other atoms than the file states", line=n.lineno))
+    elif not offs:
+        raise AnalysisError("R-INDEXSPACE: no index-field conversions found in the V3000 reader")
+    # file order
+    for ver in ("V3000", "V2000"):
+        f0 = reader_entries(ctx)[ver]
+        for f in [ctx.cg.funcs[q] for q in ctx.cg.closure([f0.fq])]:
+            if "atom" not in f.name or "block" not in f.name:
+                continue
+            loops = [n for n in own_walk(f.node) if isinstance(n, (ast.For, ast.DictComp, ast.ListComp))]
+            for lp in loops:
+                it = lp.iter if isinstance(lp, ast.For) else lp.generators[0].iter
+                base = it
+                if isinstance(base, ast.Call) and isinstance(base.func, ast.Name) and base.func.id == "enumerate" and base.args:
+                    base = base.args[0]
+                if isinstance(base, ast.Name):
+                    d = single_def(f.node, base.id)
+                    if d is not None:
+                        base = d
+                pname = params_of(f.node)[0] if params_of(f.node) else None
+                direct = (isinstance(base, ast.Subscript) and isinstance(base.slice, ast.Slice) and isinstance(base.value, ast.Name) and base.value.id == pname) or \
+                         (isinstance(base, ast.Name) and base.id == pname)
+                reorder = isinstance(base, ast.Call) and isinstance(base.func, ast.Name) and base.func.id in ("sorted", "reversed", "set", "frozenset")
+                if not direct and not reorder:
+                    continue
+                res.inst(f.fq, f"{ver}: atom lines are decoded in file order (`{short(it, 60)}`)", "ok" if direct else "fail")
+                if reorder:
+                    res.fail(Finding("R-INDEXSPACE", f.module.rel, f.qualname, norm(it), f"{ver}: atom lines are reordered before decoding: atoms are not returned in file order", line=it.lineno))
+    return res
+
+
+@rule("R-GRAPHBUILD")
+def r_graphbuild(ctx) -> RuleResult:
+    res = RuleResult("R-GRAPHBUILD", "graph_from_molecule: node labels and bond endpoints are taken from one key space (the atom keys), all attributes attached, and the final renumbering is one consistent map")
+    gfm = ctx.repo.func("tucan.graph_utils.graph_from_molecule")
+    fn = gfm.node
+    ps = params_of(fn)
+    if len(ps) < 2:
+        raise AnalysisError("graph_from_molecule signature changed")
+    atoms, bonds_p = ps[0], ps[1]
+
+    def numbering(e: ast.expr, depth=0) -> Optional[str]:
+        """how labels are derived from the atom table: 'key' | 'insertion' | 'sorted' | None"""
+        if depth > 5:
+            return None
+        if isinstance(e, ast.Name):
+            if e.id == atoms:
+                return "key"
+            d = single_def(fn, e.id)
+            return numbering(d, depth + 1) if d is not None else None
+        if isinstance(e, ast.Call) and isinstance(e.func, ast.Name):
+            if e.func.id in ("list", "tuple", "iter") and e.args:
+                return numbering(e.args[0], depth + 1)
+            if e.func.id == "sorted" and e.args:
+                inner = numbering(e.args[0], depth + 1)
+                return "sorted" if inner in ("key", "insertion") else inner
+            if e.func.id == "enumerate" and e.args:
+                inner = numbering(e.args[0], depth + 1)
+                return {"key": "insertion", "values": "insertion", "sorted": "sorted"}.get(inner, inner)
+            if e.func.id == "range":
+                return "insertion"
+        if isinstance(e, ast.Call) and isinstance(e.func, ast.Attribute) and isinstance(e.func.value, ast.Name) and e.func.value.id == atoms:
+            if e.func.attr in ("keys",):
+                return "key"
+            if e.func.attr in ("items",):
+                return "key"
+            if e.func.attr == "values":
+                return "values"
+        if isinstance(e, (ast.GeneratorExp, ast.ListComp, ast.DictComp)):
+            return numbering(e.generators[0].iter, depth + 1)
+        return None
+
+    node_calls = [n for n in own_walk(fn) if isinstance(n, ast.Call) and isinstance(n.func, ast.Attribute) and n.func.attr in ("add_nodes_from", "add_node")]
+    edge_calls = [n for n in own_walk(fn) if isinstance(n, ast.Call) and isinstance(n.func, ast.Attribute) and n.func.attr in ("add_edges_from", "add_edge")]
+    if not node_calls or not edge_calls:
+        raise AnalysisError("R-GRAPHBUILD: graph_from_molecule no longer adds nodes and edges explicitly")
+    nspace = numbering(node_calls[0].args[0]) if node_calls[0].args else None
+    # edges: endpoints either the bond keys themselves, or mapped through a dict built from the atom table
+    earg = edge_calls[0].args[0] if edge_calls[0].args else None
+    espace = None
+    maps = set()
+    if earg is not None:
+        for x in ast.walk(earg):
+            if isinstance(x, ast.Subscript) and isinstance(x.value, ast.Name) and x.value.id not in (atoms, bonds_p):
+                maps.add(x.value.id)
+        if maps:
+            spaces = set()
+            for mname in maps:
+                d = single_def(fn, mname)
+                spaces.add(numbering(d) if d is not None else None)
+            espace = spaces.pop() if len(spaces) == 1 else None
+        else:
+            src = earg
+            while isinstance(src, ast.Call) and isinstance(src.func, ast.Name) and src.func.id in ("list", "tuple") and src.args:
+                src = src.args[0]
+            t = norm(src)
+            if t in (f"{bonds_p}.keys()", bonds_p, f"{bonds_p}.items()") or (isinstance(src, (ast.GeneratorExp, ast.ListComp)) and bonds_p in norm(src.generators[0].iter)):
+                espace = "key"
+    if nspace is None or espace is None:
+        raise AnalysisError(f"R-GRAPHBUILD: cannot determine the label space of nodes ({nspace}) / bond endpoints ({espace})")
+    ok = nspace == espace or {nspace, espace} == {"key"}
+    res.inst(gfm.fq, f"node labels from `{short(node_calls[0], 60)}` ({nspace}); bond endpoints from `{short(edge_calls[0], 60)}` ({espace})", "ok" if ok else "fail")
+    if not ok:
+        res.fail(Finding("R-GRAPHBUILD", gfm.module.rel, gfm.qualname, norm(edge_calls[0]),
+                         f"atoms are numbered by {nspace} order of the atom table but bond endpoints by {espace} order: when the table is not in ascending key order the bonds attach to other atoms",
+                         line=edge_calls[0].lineno))
+    # attributes attached
+    has_nattr = any(isinstance(n, ast.Call) and norm(n.func).endswith("set_node_attributes") for n in own_walk(fn)) or nspace in ("values",) or \
+        any(atoms in norm(c.args[0]) and (".items()" in norm(c.args[0]) or ".values()" in norm(c.args[0])) for c in node_calls if c.args)
+    has_eattr = any(isinstance(n, ast.Call) and norm(n.func).endswith("set_edge_attributes") for n in own_walk(fn)) or \
+        any(".items()" in norm(c.args[0]) for c in edge_calls if c.args)
+    res.inst(gfm.fq, "atom and bond attributes are attached", "ok" if has_nattr and has_eattr else "fail")
+    if not (has_nattr and has_eattr):
+        res.fail(Finding("R-GRAPHBUILD", gfm.module.rel, gfm.qualname, "attribute attachment", "node or edge attributes are no longer attached to the graph", line=fn.lineno))
+    # final renumbering
+    rets = [n for n in own_walk(fn) if isinstance(n, ast.Return) and n.value is not None]
+    for r in rets:
+        v = r.value
+        conv = isinstance(v, ast.Call) and norm(v.func).endswith("convert_node_labels_to_integers")
+        if conv:
+            bad_kw = [k for k in v.keywords if k.arg in ("ordering", "first_label") and not (isinstance(k.value, ast.Constant) and k.value.value in ("default", 0))]
+            res.inst(gfm.fq, short(r), "ok" if not bad_kw else "fail", detail="labels 0..n-1 in insertion order, one map for nodes and edges")
+            if bad_kw:
+                res.fail(Finding("R-GRAPHBUILD", gfm.module.rel, gfm.qualname, norm(r), "renumbering does not use insertion order starting at 0", line=r.lineno))
+        else:
+            ok2 = nspace in ("insertion", "values") or (nspace == espace and nspace in ("sorted",))
+            res.inst(gfm.fq, short(r), "ok" if ok2 else "fail", detail=f"no renumbering call; labels already positions ({nspace})")
+            if not ok2:
+                res.fail(Finding("R-GRAPHBUILD", gfm.module.rel, gfm.qualname, norm(r), "the returned graph keeps file / string indices as labels instead of 0..n-1", line=r.lineno))
+    res.trusted = ["networkx.convert_node_labels_to_integers renumbers nodes and edges with one map (R-LIBSRC)"]
+    return res
